@@ -42,7 +42,9 @@ def _umount(path):
 
 
 def subst(s, R):
-    if isinstance(s, str) and s.startswith('@'):
+    """'@' alone or a leading '@/' stands for the sandbox root (a file NAMED
+    '@...' is not a placeholder: generators spell it './@...')"""
+    if isinstance(s, str) and (s == '@' or s.startswith('@/')):
         return R + s[1:]
     return s
 
@@ -71,7 +73,7 @@ class World(object):
     def abs(self, rel):
         if rel in ('', None):
             return self.R
-        if rel.startswith('@'):
+        if rel == '@' or rel.startswith('@/'):
             return self.R + rel[1:]
         if rel.startswith('/'):
             return rel
